@@ -66,6 +66,9 @@ func (ex *Exec) libSummary(fr *Frame, st *State, fn *ssa.Function, args []Val, x
 	if x != nil {
 		pos = ex.pos(x)
 	}
+	if res, ok := ex.textSummary(fr, st, fn, args, x, resT); ok {
+		return res, true
+	}
 	switch name {
 	case "(*bytes.Buffer).WriteByte":
 		if b, _ := ex.bufOf(st, args[0]); b != nil {
